@@ -249,6 +249,12 @@ def _work(args):
         try:
             CeiloChunk(arg)
             res['construct'] = 'ok'
+            if isinstance(arg, pd.DataFrame) and 'height' in arg.columns:
+                # ... and with an MSA inside the data (the crop must not turn an accepted table into a refused one)
+                hs_ = sorted(float(x) for x in pd.to_numeric(arg['height'], errors='coerce').dropna())
+                if hs_:
+                    CeiloChunk(arg, prms={'MSA': hs_[len(hs_) // 2] - 1.0, 'MSA_HIT_BUFFER': 0})
+                    CeiloChunk(arg, prms={'MSA': 0, 'MSA_HIT_BUFFER': 0})
         except AmpycloudError:
             res['construct'] = 'error'
         except Exception as e:
